@@ -9,13 +9,28 @@ COQ_CHECK = "lcheck"
 COQ_PREAMBLE = ("Inductive lcase := CMgm (c : M_Mgm.case) (r : M_Mgm.rcase) | CMgm2 (c : M_Mgm2.case2).\n"
                 "Definition lcheck (c : lcase) : bool := match c with CMgm x r => M_Mgm.check_case x && "
                 "M_Mgm.rcheck_case r | CMgm2 x => M_Mgm2.check_case2 x end.")
-OBLIGATIONS = ['mgm_movers_independent_partial', 'mgm_round_monotone_partial', 'mgm_rounds_monotone_partial']
+OBLIGATIONS = ['mgm_movers_independent_partial', 'mgm_round_monotone_partial', 'mgm_rounds_monotone_partial', 'mgm2_monotone_refuted']
 N_QUICK, N_THOROUGH = 300, 4000
 PARALLEL = 8
 SHARD = 40
-RULE = ""
-MODELLED = ""
-META = dict(level_text="", level_note="", technique="", design_ref="DESIGN.md §5 C03")
+RULE = ("random DCOPs of 1-6 variables (domains of 1-3 integer values), binary/ternary/unary constraints, duplicate "
+        "scopes, isolated variables, own-cost variables in 0/30/60% of the variables, min/max, stop_cycle 2-7, mgm "
+        "or mgm2 (threshold 0-1, three favor modes); real computations under seeded FIFO schedules from 6 policies, "
+        "85% run to quiescence; all algorithm randomness replaced by a logged oracle. The oracle recomputes the "
+        "global cost / the per-variable best responses at every cycle boundary of the real run. "
+        "non-trivial = a cycle that moves (C03) / an idle cycle (C04); distinct = distinct case JSON")
+MODELLED = ("handler models of mgm.py / mgm2.py compared on full event traces, final states and channels; for MGM "
+            "in addition the round-level function mgm_next (about which the theorems are) is iterated from the "
+            "observed initial assignment with the observed draws and compared with the assignment at every cycle "
+            "boundary of the asynchronous run. Theorems: round-level (all inputs); the asynchronous refinement is "
+            "checked, not proved; MGM2: refutation witnesses only")
+META = dict(
+    level_text=("Partial proof (Coq). Proved for every DCOP (n-ary constraints, variables' own costs), min and max, all draws: one complete MGM cycle as a function on assignments never worsens the global cost (constraints + own costs) and no two constraint-sharing variables both move; lifted to any number of cycles. NOT proved: that the asynchronous handlers compute exactly this cycle function at every cycle boundary under every FIFO schedule; this refinement is checked on every run (round-level model replayed against the cycle-boundary assignments of real asynchronous executions, plus the full-trace correspondence of the handler model). MGM2: the handler model is tied to the code by the same full-trace correspondence; the property is refuted for coordinated moves (theorem mgm2_monotone_refuted, known finding C03-mgm2-coordinated-gain), no MGM2 monotonicity theorem."),
+    level_note=("Trusted: Coq kernel/vm_compute, M_Mgm.v / M_Mgm2.v + Net.v as renderings of the Python code, the "
+                "thread-free netdriver, integer costs inside int32."),
+    technique="Coq proof over an executable round-level model + round-level and full-trace correspondence",
+    design_ref="DESIGN.md §5 C03",
+)
 ALGOS = ["mgm", "mgm2"]
 
 
